@@ -9,7 +9,8 @@ import json, os, subprocess, sys, shutil, time
 cid, cdir, demo_dst, demo_run = sys.argv[1:5]
 checks = sys.argv[5:] or [cid]
 WT = "/tmp/ev-%s-%d" % (cid, os.getpid())
-env = dict(os.environ, GOFLAGS="-mod=mod")
+# SEEDTEST_RACE=1: the demonstration (and the existing tests) run under the race detector (schedule-free race demos)
+env = dict(os.environ, GOFLAGS="-mod=mod" + (" -race" if os.environ.get("SEEDTEST_RACE") else ""))
 
 
 def sh(cmd, cwd=WT, timeout=1800, e=env):
